@@ -139,7 +139,7 @@ def run(ctx):
     wk = [n for n in pcfg.live_nodes() if n.kind == "stmt" and isinstance(n.ast, ast.Assign) and any(src(t) == "x.weekday" for t in n.ast.targets)]
     for w in wk:
         asg = [m for m in pcfg.live_nodes() if m.kind == "stmt" and isinstance(m.ast, ast.Assign) and any(src(t) == "x.week" for t in m.ast.targets)]
-        ok = bool([a for a in asg if pcfg.dominates([a], w)])
+        ok = bool(asg) and pcfg.dominates(asg, w)       # every path to the weekday store passes through some store of the week
         ctx.ob("C08.NULL", tzp, "wherever a rule's weekday is assigned its week has been assigned before (co-assignment)", ok, construct="co-assignment: %s" % stmt_text(w))
     ctx.floor("C08.NULL", len(wk), 2, "weekday assignments in the TZ parser")
 
@@ -225,8 +225,12 @@ def run(ctx):
            bool(jn) and any(p_.kind == "branch" and "'J'" in src(p_.ast) for p_, lab in pcfg.nodes[jn[0].id].pred) or
            any(isinstance(s, ast.If) and "'J'" in src(s.test) and any(src(t) == "x.jyday" for b in s.body for t in getattr(b, "targets", [])) for s in ast.walk(tzp.node)),
            construct="J -> jyday")
-    w5 = [n for n in pcfg.live_nodes() if n.kind == "stmt" and src(n.ast) == "x.week = -1"]
-    ctx.ob("C08.RULEKEYS", tzp, "week 5 means the last week (-1)", len(w5) == 1 and ("x.week == 5", True) in pf.at(w5[0]), construct="week 5 -> -1")
+    w5 = [n for n in pcfg.live_nodes() if n.kind == "stmt" and src(n.ast).replace(" ", "") == "x.week=-1"]
+    # the test is on the slot itself or on the local that is stored into the slot otherwise
+    week_sources = set(["x.week"]) | set(src(n.ast.value) for n in pcfg.live_nodes() if n.kind == "stmt" and isinstance(n.ast, ast.Assign)
+                                        and any(src(t) == "x.week" for t in n.ast.targets) and isinstance(n.ast.value, ast.Name))
+    ok5 = len(w5) == 1 and any(tv and t.replace(" ", "") in ("%s==5" % w_ for w_ in week_sources) for t, tv in pf.at(w5[0]))
+    ctx.ob("C08.RULEKEYS", tzp, "week 5 means the last week (-1)", ok5, construct="week 5 -> -1", analysis="must-hold branch facts")
     wdm = sorted(set(src(n.ast.value).replace(" ", "") for n in wk))
     ctx.ob("C08.RULEKEYS", tzp, "POSIX weekday 0=Sunday is converted to Monday=0 by (d - 1) mod 7", wdm == ["(int(l[i])-1)%7"], construct="x.weekday conversion", detail=str(wdm))
 
@@ -316,6 +320,25 @@ def run(ctx):
     check_call_arguments(ctx, "C08.ARGS", "C08")
     from ..rules_common import check_effect_tables
     check_effect_tables(ctx, "C08")
+    from ..rules_common import check_region_table, statements_mentioning
+    from ..rules_common import _blocks
+
+    def rule_time_region(fnode):
+        # from the statement that measures the token after '/' to the last statement of that block that stores a rule time
+        best = None
+        for block in _blocks(fnode):
+            for k, st in enumerate(block):
+                if isinstance(st, ast.Assign) and isinstance(st.value, ast.Call) and src(st.value.func) == "len" and any(
+                        isinstance(x, ast.Attribute) and x.attr == "time" and isinstance(x.ctx, ast.Store) for y in block[k + 1:] for x in ast.walk(y)):
+                    last = max(j for j in range(k + 1, len(block)) if any(isinstance(x, ast.Attribute) and x.attr == "time" and isinstance(x.ctx, ast.Store) for x in ast.walk(block[j])))
+                    span = block[k:last + 1]
+                    size = sum(1 for y in span for _ in ast.walk(y))
+                    if best is None or size < best[0]:
+                        best = (size, span)
+        return best[1] if best else []
+    check_region_table(ctx, "C08.TABLE", tzp, rule_time_region,
+                       "a rule time `/hh[:mm[:ss]]` or `/hhmm` becomes seconds from the token at the cursor and the tokens two and four places on",
+                       "_tzparser.parse: rule time after '/'")
     from ..rules_common import check_presence_tests, ARG_SCOPE
     check_presence_tests(ctx, "C08.PRESENCE", classes=ARG_SCOPE.get("C08", []))
 
